@@ -27,6 +27,9 @@ TRUSTED = [
     "inside Coq with the model's site lists, (b) the trace check: every successful dq_state write recorded on a real queue equals "
     "the generated body of its source site applied to the old value, and the value chain of the word satisfies the proved "
     "word-level invariant",
+    "the tail tests of the three fast paths (plain loads of dq_items_tail, program points S_tail / B_tail / A_tail of the model) are "
+    "not atomic sites and not dq_state transitions, so neither (a) nor (b) sees them; the one of the barrier-sync fast path is "
+    "exercised by the fixed schedule of harness/c04_overtake.c (it fails when the test is removed)",
     "atomicity: an os_atomic_rmw_loop is one step (its successful compare-exchange); interleaving semantics is sequentially "
     "consistent on the single word dq_state and the item list (memory-order strength is C05's subject)",
     "scope of the model: one DISPATCH_QUEUE_CONCURRENT queue of width 2..4094 targeting a root queue (role BASE_ANON, redirecting "
@@ -370,9 +373,37 @@ def clane_runs(ctx):
     return fails, mism, trc, wordc, ownc, stats
 
 
+def overtake_runs(ctx, stats):
+    """fixed corpus: the sync fast path overtaking an earlier async item of the same thread (witness of /repo 43b9c73)"""
+    exe, msg = common.build_harness("c04_overtake", ["c04_overtake.c"], whitebox=True, extra=["-I" + common.VERIF + "/harness"])
+    if exe is None:
+        raise RuntimeError("harness build failed: " + msg)
+    fails, mism = [], []
+    for kind in ("concurrent", "serial"):
+        r = common.run([exe, kind], timeout=120)
+        m = re.search(r"OVERTAKE (\w+) o_held=(\d) u_held=(\d) idle=(\d+) state_locked=(\d+) state_after_x2=(\d+) state_before_sync=(\d+) "
+                      r"b_ran=(\d) b_ran_before_x2=(\d)", r.stdout)
+        if r.returncode != 0 or not m:
+            mism.append({"what": "overtake witness did not run", "detail": (r.stdout + r.stderr)[-800:]})
+            continue
+        reached = m.group(2) == "1" and m.group(3) == "1" and m.group(4) == m.group(7)
+        stats["overtake_%s_schedule_reached" % kind] = int(reached)
+        if m.group(8) != "1":
+            mism.append({"what": "overtake witness: the sync item never ran", "detail": r.stdout[-400:]})
+        if m.group(9) == "1":
+            fails.append({"key": "overtake:" + kind,
+                          "what": "%s ran before an item the same thread had submitted earlier with dispatch_async (%s queue; the word was "
+                                  "idle while two items sat on the list)" % ("dispatch_barrier_sync" if kind == "concurrent" else "dispatch_sync", kind),
+                          "scenario": "overtake", "kind": kind, "output": r.stdout.strip()})
+    return fails, mism
+
+
 def correspond(ctx):
     res = lanes.run(ctx, "C04")
     fails, mism, trc, wordc, ownc, stats = clane_runs(ctx)
+    f2, m2 = overtake_runs(ctx, stats)
+    fails = f2 + fails
+    mism = mism + m2
     res["failures"] = (fails + res.get("failures", []))[:20]
     res["mismatches"] = (res.get("mismatches", []) + mism)[:20]
     res["evaluations"] = res.get("evaluations", 0) + len(trc)
@@ -380,7 +411,10 @@ def correspond(ctx):
     res["distinct_nontrivial"] = res.get("distinct_nontrivial", 0) + len(shapes)
     res["traces_validated_against_impl"] = len(trc)
     res["rule"] = res.get("rule", "") + (
-        " || trace check (harness/c04_clane.c): one concurrent queue per round, width 4094 or 2..8 (dispatch_queue_set_width on the "
+        " || fixed schedule (harness/c04_overtake.c, concurrent and serial queue): a worker about to unlock after seeing an empty "
+        "list and a first enqueuer before its wakeup are held with the hook, a second enqueuer pushes without wakeup, the unlock "
+        "commits the idle word; the following dispatch_barrier_sync / dispatch_sync of the second enqueuer must not run before its "
+        "own earlier item || trace check (harness/c04_clane.c): one concurrent queue per round, width 4094 or 2..8 (dispatch_queue_set_width on the "
         "idle queue), 2..8 client threads with a random mix of dispatch_sync / barrier_sync / async / barrier_async / apply in four "
         "profiles, perturbation 0/20/45 percent of atomic operations plus aimed delays after writes of dq_state; fixed corpus: the "
         "width-overflow witness (W asyncs and 3..6 sync waiters behind a barrier, then a barrier); every successful dq_state write "
@@ -398,6 +432,15 @@ def correspond(ctx):
 def replay(ctx, obj):
     rc = lanes.replay(ctx, obj)
     for f in obj.get("failures", []):
+        if f.get("scenario") == "overtake":
+            print("recorded:", f.get("what"))
+            f2, m2 = overtake_runs(ctx, {})
+            print("  re-run: %d failures" % len(f2))
+            for x in f2:
+                print("   ", x["output"])
+            if f2:
+                rc = 1
+            continue
         if "scenario" in f and f.get("scenario") in ("mix", "overflow"):
             print("recorded:", f.get("what"))
             text = run_harness(f["seed"], f["rounds"], f["permille"], f["scale"], f["scenario"])
